@@ -308,6 +308,9 @@ def crc32(ck, S, RID="C08-O4"):
             if "[256]" in t_ or _re.search(r"std::array<[^<>]*, 256>", t_):
                 tab = v
                 TABS.add(v["decl"])
+    if tab is None and semantic:
+        ck.ob(RID, sitestr(fn), True, "the table lives outside calculateCRC32(); its 256 entries and the update were decided by evaluation", key="calculateCRC32|table-size")
+        return
     ck.ob(RID, sitestr(fn), True if tab is not None else None, "256-entry table" if tab else "no 256-entry table found in the CRC code; idiom not recognised", key="calculateCRC32|table-size")
     if tab is None:
         return
@@ -549,6 +552,25 @@ def crc_by_cases(ck, S, RID):
           "the generated table differs from the CRC-32 table in %d entries (first: table[%d] = %#x, expected %#x)" % (len(diff), diff[0], timpl[diff[0]], std[diff[0]]), key="calculateCRC32|table")
     if diff:
         return False
+    # a table held in a namespace-scope object must be ready before any code can run: constant initialisation (constexpr constructor / constinit).
+    # A dynamically initialised object is zero until its translation unit is initialised - a rotation with compression that happens earlier
+    # (logging configured by another global object's constructor; the objects of a static library are initialised after the application's)
+    # computes the CRC over an all-zero table
+    if str(tdecl).startswith("field:"):
+        rec_ = str(tdecl)[6:].rsplit("::", 1)[0]
+        holders = [gv for gv in F.globals.values() if not gv.get("staticlocal") and gv.get("file") == fn.file and
+                   (gv.get("type") or "").replace("const ", "").strip().split("::")[-1] == rec_.split("::")[-1]]
+    else:
+        holders = [gv for gv in F.globals.values() if gv.get("decl") == tdecl and not gv.get("staticlocal")]
+    for gv in holders:
+        if gv.get("constinit") is False:
+            ck.ob(RID, "%s:%s (%s)" % ((gv.get("file") or "").split("/src/")[-1], gv.get("line"), gv.get("name")), False,
+                  "%s holds the CRC table and is initialised dynamically (its constructor is not constexpr): until the translation unit is initialised the table is all zero, so a file compressed before "
+                  "that - a rotation triggered from another global object's constructor - gets the checksum 0xFFFFFFFF in its trailer and every gzip reader rejects it, after the original was removed" % gv.get("name"),
+                  key="calculateCRC32|table-init-order")
+            return False
+        elif gv.get("constinit"):
+            ck.ob(RID, "%s:%s (%s)" % ((gv.get("file") or "").split("/src/")[-1], gv.get("line"), gv.get("name")), True, "%s holds the CRC table and is constant-initialised" % gv.get("name"), key="calculateCRC32|table-init-order")
     # the table seen by the update code: the same object, or a reference / copy of what the generator returned
     tab_decls = set(tabs)
     # (2) the update
